@@ -31,7 +31,8 @@ RULE = (
     'artifact has exactly one entry per applicable active check, named after the class, with the class\'s '
     'public severity (README table cross-checked; SEVERITY_UNKNOWN for the unfactored low-Hamming-weight case; '
     'highest failed severity of the issuer key for CheckIssuerKey), the version of paranoid_crypto/VERSION, '
-    'weak iff some entry is positive, return value iff some artifact is weak; CheckIssuerKey equals the verdict '
+    'weak iff some entry is positive, return value iff some artifact is weak (asserted again when the same entry '
+    'point is re-run over annotations that only it wrote; on other re-runs: returned True implies a weak artifact); CheckIssuerKey equals the verdict '
     'of CheckAllEC run by the harness on fresh copies of the issuer keys. Invariants after every step against a '
     'snapshot: weak never cleared, positive entries stay positive, severities never decrease, factor records '
     'only grow, no duplicate entry names, version unchanged. Non-trivial: a history that re-runs something on '
@@ -239,7 +240,10 @@ def _expected_names(t, a):
   return set(SIG_NAMES_ALL + (SIG_NAMES_KNOWN if a.issuer_key_info.curve_type in eg.CURVE_NAMES else []))
 
 
-def _check_entry_point(t, arts, ret, step):
+EARLIER_VERSION = '0.9.0-earlier-run'
+
+
+def _check_entry_point(t, arts, ret, step, rerun=False):
   version = _version()
   readme = _readme()
   any_weak = False
@@ -262,7 +266,9 @@ def _check_entry_point(t, arts, ret, step):
     exp = _expected_names(t, a)
     if names != exp:
       raise Violation('entrypoint:entry-set', missing=sorted(exp - names), unexpected=sorted(names - exp), **ctx)
-    if a.test_info.paranoid_lib_version != version:
+    # (artifacts reloaded from an earlier library run keep the version recorded then: SetTestResult only
+    # fills an empty field, and the property asks no more than that a version is recorded)
+    if a.test_info.paranoid_lib_version not in (version, EARLIER_VERSION if rerun else version):
       raise Violation('entrypoint:version', got=a.test_info.paranoid_lib_version, expected=version, **ctx)
     pos = False
     for name, entries in res.items():
@@ -331,15 +337,19 @@ def run_history(desc):
   mat = Material(desc['m'], 'c16')
   pool = _build_pool(desc, mat)
   fresh = {t: True for t in pool}
+  only_all = {t: True for t in pool}   # so far the type was only handled by its all-checks entry point
   had_positive = False
   rerun_after_positive = False
   nsteps = 0
+  repeated_all = False
   for step, op in enumerate(desc['ops']):
     kind, t = op[0], ['rsa', 'ec', 'sig'][op[1] % 3]
     arts = pool[t]
     if not arts and kind != 'all':
       continue
     before = _snap(pool)
+    if kind not in ('all', 'reparse'):
+      only_all[t] = False
     annotated = any(len(a.test_info.test_results) for a in arts)
     if had_positive and annotated:
       rerun_after_positive = True
@@ -347,15 +357,22 @@ def run_history(desc):
       ret = libcall(ENTRY[t], arts)
       after = _snap(pool)
       _check_monotone(before, after, step)
-      if fresh[t]:
-        _check_entry_point(t, arts, ret, step)
+      if fresh[t] or only_all[t]:
+        # first run, or a re-run over annotations that this very entry point wrote: the same checks give the
+        # same verdicts, so the whole bookkeeping clause (including the return value) applies again
+        _check_entry_point(t, arts, ret, step, rerun=not fresh[t])
       else:
+        if ret is True and not any(a.test_info.weak for a in arts):
+          raise Violation('rerun:returned-true-without-weak-artifact', type=t, step=step)
         # annotations of differently configured checks may keep an artifact weak although this run
         # returns False: only the entry set and the per-artifact consistency are asserted
         for i, a in enumerate(arts):
           if set(art.results(a.test_info)) != _expected_names(t, a) | set(before[t][i]['results']):
             raise Violation('rerun:entry-set', type=t, index=i, step=step)
       fresh[t] = False
+      if not fresh[t] and only_all[t] and step and any(o[0] == 'all' and o[1] % 3 == op[1] % 3
+                                                       for o in desc['ops'][:step]):
+        repeated_all = True
     elif kind == 'check':
       names = SINGLE_BY_TYPE[t]
       name = names[op[2] % len(names)]
@@ -411,12 +428,14 @@ def run_history(desc):
         # the stored annotations come from an earlier library version
         for a in pool[t]:
           if a.test_info.paranoid_lib_version:
-            a.test_info.paranoid_lib_version = '0.9.0-earlier-run'
+            a.test_info.paranoid_lib_version = EARLIER_VERSION
     nsteps += 1
     had_positive |= any(a.test_info.weak for arts2 in pool.values() for a in arts2)
   cls = ['history steps=%s' % (nsteps if nsteps < 4 else '4+')]
   if rerun_after_positive:
     cls.append('history rerun-on-annotated-after-positive')
+  if repeated_all:
+    cls.append('history entry-point-repeated-on-own-annotations')
   if any(op[0] == 'reparse' for op in desc['ops']):
     cls.append('history with-reparse')
   cls += ['pool %s=%s' % (t, len(v) if len(v) < 3 else '3+') for t, v in pool.items()]
@@ -434,6 +453,7 @@ def strat_history(tier):
                                    'same_point_other_curve']),
                   st.integers(0, 1000), st.integers(1, 3)).map(list)
   op = st.one_of(
+      st.tuples(st.just('all'), st.integers(0, 2)),
       st.tuples(st.just('all'), st.integers(0, 2)),
       st.tuples(st.just('check'), st.integers(0, 2), st.integers(0, 1000), st.integers(1, 65535)),
       st.tuples(st.just('preannotate'), st.integers(0, 2), st.integers(0, 1000), st.integers(0, 1000)),
